@@ -76,4 +76,5 @@ package async
 //@   ensures #stopped chanclosed(c.stopChan)
 //@   modifies everything()
 //@   loop 1
+//@     invariant #serial spawned() == old(spawned())
 //@     invariant rqwf(c) && c.stopChan != nil && !chanclosed(c.stopChan) && curStop == c.stopChan
